@@ -139,6 +139,7 @@ fn gen_c04(r: &mut Rng, tier: Tier, job: u64) -> Plan {
                         last_row_ended: r.coin(),
                         close: Close::Finish,
                         contra: None,
+                        recover: None,
                     })],
                     end: End::Implicit,
                     ret_err: None,
@@ -213,6 +214,7 @@ fn gen_c04(r: &mut Rng, tier: Tier, job: u64) -> Plan {
                         last_row_ended: true,
                         close: Close::Finish,
                         contra: None,
+                        recover: None,
                     })],
                     end: End::Implicit,
                     ret_err: None,
@@ -264,6 +266,7 @@ fn gen_c04(r: &mut Rng, tier: Tier, job: u64) -> Plan {
                         last_row_ended: true,
                         close: Close::Finish,
                         contra: None,
+                        recover: None,
                     })],
                     end: End::Implicit,
                     ret_err: None,
@@ -511,6 +514,7 @@ fn c15_plan(cells: Vec<(Cell, u8, bool)>, r: &mut Rng) -> Plan {
                     last_row_ended: true,
                     close: Close::Finish,
                     contra: None,
+                    recover: None,
                 })],
                 end: End::Implicit,
                 ret_err: None,
